@@ -21,3 +21,5 @@ def run(tier, only=None):
         violations, broken = [], [str(b)]
     work.clean()
     finish(ev, violations, '; '.join(broken) if broken else None)
+
+def replay(path): return generic_replay(path, harnesses())
